@@ -3,7 +3,7 @@
 Protocol: notes/io-protocol.md.  Message values come from gen_init; canonical streams come from the
 model's own emplacement (stage 1), so valid streams need no Python encoder."""
 import random
-from shapes import has_default, align, min_size, wide_len
+from shapes import has_default, align, min_size, wide_len, ssize as ssize_of
 from cases import gen_init, garbage, hexs, parse_kv
 
 IOKINDS = ['Interrupted', 'WouldBlock', 'Other', 'UnexpectedEof', 'BrokenPipe', 'TimedOut']
@@ -101,7 +101,7 @@ def stage1(shapes, seed, tier='quick'):
            [(sid, t) for sid, t in ms if padded_tail(t) and t[0] == 'enum'][:2] + \
            [(sid, t) for sid, t in ms if padded_tail(t) and t[0] == 'struct'][:2] + \
            [(sid, t) for sid, t in ms if unaligned_tail(t)][:2] + \
-           [(sid, t) for sid, t in ms if has_str(t) and t[0] != 'str'][:2] + [(sid, t) for sid, t in ms if t[0] == 'str'][:1]
+           [(sid, t) for sid, t in ms if has_str(t) and t[0] != 'str'][:2] + [(sid, t) for sid, t in ms if t[0] == 'str' and align(t) > 1][:1] + [(sid, t) for sid, t in ms if t[0] == 'vec' and align(t) > ssize_of(t[1]) > 0][:1]
     prio = [x for i, x in enumerate(prio) if x not in prio[:i]]
     pick = prio + [x for x in pick if x not in prio][:nshapes - len(prio)]
     for sid, t in pick:
@@ -163,6 +163,32 @@ def stage2(shapes, s1_meta, s1_model, seed, tier='quick'):
                 scripts.append(','.join('a%d' % c for c in compositions(rng, total, rng.randint(1, total + 2))) or '-')
             for j, sc in enumerate(scripts):
                 add('%s.S%d_%d' % (lid, mml, j), 'send', sid, '%d %s | %s' % (mml, sc, ini_s), mml=mml, faults=False, **base)
+            # ---- messages edited through the send guard (DerefMut) between construction and send(): what goes out is
+            #      the message as it stands when send() is called (its size() then, not the size at construction)
+            if mml == maxlen + 3:
+                import hist_cases
+                ct = t if t[0] in ('vec', 'str', 'flex') else (hist_cases.nested_plan(t) or [None])[0]
+                if ct is not None:
+                    for j in range(2 if tier == 'quick' else 5):
+                        eds = []
+                        for ini in inits:
+                            if ct[0] == 'vec':
+                                op = hist_cases.gen_vec_ops(ct, rng, 1, rng.choice([1, 3, 8]), rng.choice([0, 2]))[0]
+                            elif ct[0] == 'str':
+                                op = hist_cases.gen_str_ops(rng, 1)[0]
+                            else:
+                                op = hist_cases.gen_flex_ops(ct, rng, 1)[0]
+                            eds.append('%s ~ %s' % (ini, op) if rng.random() < 0.8 else ini)
+                        sc = ','.join('a%d' % c for c in compositions(rng, total, rng.randint(1, total + 2))) or '-'
+                        add('%s.SE%d_%d' % (lid, mml, j), 'send', sid, '%d %s | %s' % (mml, sc, ' | '.join(eds)), mml=mml, faults=False,
+                            edited=True, **base)
+                        ws = []
+                        for c in compositions(rng, total, rng.randint(1, total + 2)):
+                            while rng.random() < 0.3:
+                                ws.append('p')
+                            ws.append('a%d' % c)
+                        add('%s.ASE%d_%d' % (lid, mml, j), 'asend', sid, '%d %s %s | %s' % (mml, ','.join(ws) or '-', 'fp,fo', ' | '.join(eds)),
+                            mml=mml, faults=False, edited=True, **base)
             rscripts = ['-', ','.join(['d1'] * total) or '-']
             for _ in range(2 if tier == 'quick' else 6):
                 rscripts.append(','.join('d%d' % c for c in compositions(rng, total, rng.randint(1, total + 2))) or '-')
